@@ -302,6 +302,8 @@ def synthetic(rng):
         rng, models=["hertz_para", "hertz_cone", "sneddon_spher_approx"],
         npts=(300, 700, 1500, 2500), noise_snr=(1000, 100, 20),
         with_tip=True)
+    # (a third of the curves come without a recorded tip position column)
+    spec["with_tip"] = bool(rng.random() < .67)
     # approach and retract of different length (e.g. 700 + 300 points)
     spec["n_ret"] = int(spec["n"] * float(rng.choice([1, 1, .4, 1.8])))
     idnt, truth = fitlab.build_curve(spec)
@@ -331,6 +333,21 @@ def one_case(rec, rng, cid):
     case = {"id": cid, "curve": desc}
     # ---- states without a successful fit
     judge_curve(rec, rng, idnt, dict(case, state="fresh"), False)
+    # only settings stored (nothing preprocessed, nothing fitted; the curve
+    # may lack a tip position column)
+    idnt.fit_properties["model_key"] = "hertz_para"
+    if rng.random() < .5:
+        idnt.fit_properties["weight_cp"] = 3e-7
+    judge_curve(rec, rng, idnt, dict(case, state="settings-only"), False)
+    if rng.random() < .5:
+        # preprocessed without tip-sample separation
+        try:
+            idnt.apply_preprocessing(["correct_force_offset"])
+        except BaseException:  # noqa
+            pass
+        judge_curve(rec, rng, idnt,
+                    dict(case, state="preprocessed-without-tip-position"),
+                    False)
     try:
         idnt.apply_preprocessing(list(pipe))
     except BaseException:  # noqa
@@ -385,6 +402,18 @@ def one_case(rec, rng, cid):
                 rec.event("unusual fit judged: " + odd["kind"])
                 judge_curve(rec, rng, idnt,
                             dict(case, state="fitted-unusual", odd=odd), True)
+    if rng.random() < .4:
+        # ---- preprocessed again without tip-sample separation after the
+        # fit: results dropped, the abscissa of the fit may be gone
+        try:
+            idnt.apply_preprocessing(["correct_force_offset"])
+        except BaseException:  # noqa
+            pass
+        judge_curve(rec, rng, idnt,
+                    dict(case, state="reprocessed-without-tip-position-"
+                         "after-fit"), False)
+        rec.sample(case, limit=2)
+        return
     # ---- settings edited after the fit (results dropped)
     idnt.fit_properties["weight_cp"] = 1.2345e-7
     judge_curve(rec, rng, idnt, dict(case, state="settings-edited-after-fit"),
